@@ -77,4 +77,17 @@ theorem checked_table_canonical (s : Store) (h : wfCheck s.nodes = true) (a b : 
 example : WF Store.init ∧ opsValid [.var 0, .not 2, .or 2 3] 2 :=
   ⟨WF_init, by simp [opsValid, Op.valid, VBOT]⟩
 
+/-- non-vacuity of `canonical_any` / `bridge_wf`: the fresh store is well formed and the dump consisting
+of the two terminals and the variable x0 is an ordered dump -/
+example : WF Store.init ∧ DumpOK [⟨VBOT, 0, 0⟩, ⟨VTOP, 1, 1⟩, ⟨0, 0, 1⟩] := by
+  refine ⟨WF_init, ?_⟩
+  intro j n hj hn
+  have : j = 2 := by
+    have := (List.getElem?_eq_some_iff.mp hn).1
+    simp at this; omega
+  subst this
+  simp at hn
+  subst hn
+  refine ⟨by simp [VBOT], by simp, by simp, ?_, ?_⟩ <;> intro m h2 <;> simp at h2
+
 end C06
